@@ -130,6 +130,13 @@ def CalcD.update (set : Node → Int → Node) (c : CalcD) (name : Nat) (l : RL)
 def CalcD.updateMin := CalcD.update setMin
 def CalcD.updateWeight := CalcD.update setWeight
 
+/-- `doUpdateOneGroupMinQuotaNoLock` as seen by the parent's calculator: `updateOneGroupMinQuota`, then
+    `needUpdateOneGroupRequest → updateOneGroupRequest` with the quota's new max-limited request (a quota
+    that does not lend asks for max(children, min), so its request moves with its min).  The push is
+    skipped only when the request last pushed — which is what the node holds — already equals it. -/
+def CalcD.minQuotaChanged (c : CalcD) (name : Nat) (newMin newLimitReq : RL) : CalcD :=
+  (c.updateMin name newMin).update setRequest name newLimitReq
+
 /-- the per-dimension minimum of `name` the division will see. -/
 def CalcD.minOf (c : CalcD) (d : Nat) (name : Nat) : Option Int :=
   ((c.trees d).find? (fun n => n.name == name)).map (·.min)
